@@ -23,12 +23,12 @@ import (
 
 func init() {
 	register("c07", cmdC07)
-	registerTables(writeMethodTables)
+	registerTables(c07WriteMethodTables)
 }
 
 // ---------- method tables -> coq/Generated/ValueMethods.v ----------
 
-func writeMethodTables(outDir string) {
+func c07WriteMethodTables(outDir string) {
 	fg := value.New()
 	var b strings.Builder
 	b.WriteString(genHeader)
@@ -51,7 +51,7 @@ func writeMethodTables(outDir string) {
 			if j > 0 {
 				b.WriteString(";")
 			}
-			fmt.Fprintf(&b, "\n    (%s%%N, %s)", CoqStr(n), coqZ(int64(tbl[id][n])))
+			fmt.Fprintf(&b, "\n    (%s%%N, %s)", CoqStr(n), c07CoqZ(int64(tbl[id][n])))
 		}
 		b.WriteString("])")
 	}
@@ -62,13 +62,13 @@ func writeMethodTables(outDir string) {
 		if j > 0 {
 			b.WriteString(";")
 		}
-		fmt.Fprintf(&b, "\n  (%s%%N, %s)", CoqStr(n), coqZ(int64(st[n])))
+		fmt.Fprintf(&b, "\n  (%s%%N, %s)", CoqStr(n), c07CoqZ(int64(st[n])))
 	}
 	b.WriteString("].\n")
 	writeIfChanged(outDir+"/ValueMethods.v", b.String())
 }
 
-func coqZ(z int64) string {
+func c07CoqZ(z int64) string {
 	if z < 0 {
 		return fmt.Sprintf("(%d)", z)
 	}
@@ -77,7 +77,7 @@ func coqZ(z int64) string {
 
 // ---------- values ----------
 
-func coqFloat(f float64) string {
+func c07CoqFloat(f float64) string {
 	switch {
 	case math.IsNaN(f):
 		return "FNaN"
@@ -105,16 +105,16 @@ func coqFloat(f float64) string {
 	if b>>63 == 1 {
 		man = -man
 	}
-	return fmt.Sprintf("(FFin %s %s)", coqZ(man), coqZ(e))
+	return fmt.Sprintf("(FFin %s %s)", c07CoqZ(man), c07CoqZ(e))
 }
 
 // Coq term (Sem.Syntax.value) of a generated tree
-func (t *Tree) CoqVal() string {
+func (t *Tree) c07CoqVal() string {
 	switch t.Kind {
 	case "int":
-		return "VInt " + coqZ(int64(t.I))
+		return "VInt " + c07CoqZ(int64(t.I))
 	case "float":
-		return "VFloat " + coqFloat(t.F)
+		return "VFloat " + c07CoqFloat(t.F)
 	case "bool":
 		return "VBool " + CoqBool(t.B)
 	case "str":
@@ -122,32 +122,32 @@ func (t *Tree) CoqVal() string {
 	case "list":
 		parts := make([]string, len(t.Items))
 		for i, it := range t.Items {
-			parts[i] = it.CoqVal()
+			parts[i] = it.c07CoqVal()
 		}
 		return "VList " + CoqList(parts)
 	}
 	parts := make([]string, len(t.Items))
 	for i, it := range t.Items {
-		parts[i] = "(" + CoqStr(t.Keys[i]) + ", " + it.CoqVal() + ")"
+		parts[i] = "(" + CoqStr(t.Keys[i]) + ", " + it.c07CoqVal() + ")"
 	}
 	return "VMap " + CoqList(parts)
 }
 
-var errUnrepresentable = errors.New("unrepresentable")
+var c07ErrUnrepresentable = errors.New("unrepresentable")
 
 // deep evaluation of what the implementation returned, as a Coq term; lazy lists are evaluated here
-func coqObserved(v value.Value) (string, error) {
+func c07CoqObserved(v value.Value) (string, error) {
 	st := funcGen.NewEmptyStack[value.Value]()
 	switch x := v.(type) {
 	case value.Int:
-		return "VInt " + coqZ(int64(x)), nil
+		return "VInt " + c07CoqZ(int64(x)), nil
 	case value.Float:
-		return "VFloat " + coqFloat(float64(x)), nil
+		return "VFloat " + c07CoqFloat(float64(x)), nil
 	case value.Bool:
 		return "VBool " + CoqBool(bool(x)), nil
 	case value.String:
 		if !validUTF8(string(x)) {
-			return "", errUnrepresentable
+			return "", c07ErrUnrepresentable
 		}
 		return "VStr " + CoqStr(string(x)), nil
 	case *value.List:
@@ -157,7 +157,7 @@ func coqObserved(v value.Value) (string, error) {
 		}
 		parts := make([]string, len(sl))
 		for i, it := range sl {
-			p, err := coqObserved(it)
+			p, err := c07CoqObserved(it)
 			if err != nil {
 				return "", err
 			}
@@ -168,7 +168,7 @@ func coqObserved(v value.Value) (string, error) {
 		var parts []string
 		var ierr error
 		x.Iter(func(k string, v value.Value) bool {
-			p, err := coqObserved(v)
+			p, err := c07CoqObserved(v)
 			if err != nil {
 				ierr = err
 				return false
@@ -181,30 +181,30 @@ func coqObserved(v value.Value) (string, error) {
 		}
 		return "VMap " + CoqList(parts), nil
 	}
-	return "", errUnrepresentable
+	return "", c07ErrUnrepresentable
 }
 
 // ---------- callbacks ----------
 
-// CExp mirrors Run/C07Run.v cexp
-type CExp struct {
-	K   string  `json:"k"` // arg lit op if throw list size sum index member goto
-	I   int     `json:"i,omitempty"`
-	V   *Tree   `json:"v,omitempty"`
-	Op  string  `json:"op,omitempty"`
-	A   *CExp   `json:"a,omitempty"`
-	B   *CExp   `json:"b,omitempty"`
-	C   *CExp   `json:"c,omitempty"`
-	L   []*CExp `json:"l,omitempty"`
-	Key string  `json:"key,omitempty"`
+// c07CExp mirrors Run/C07Run.v cexp
+type c07CExp struct {
+	K   string     `json:"k"` // arg lit op if throw list size sum index member goto
+	I   int        `json:"i,omitempty"`
+	V   *Tree      `json:"v,omitempty"`
+	Op  string     `json:"op,omitempty"`
+	A   *c07CExp   `json:"a,omitempty"`
+	B   *c07CExp   `json:"b,omitempty"`
+	C   *c07CExp   `json:"c,omitempty"`
+	L   []*c07CExp `json:"l,omitempty"`
+	Key string     `json:"key,omitempty"`
 }
 
-var opCoq = map[string]string{"+": "op_add", "-": "op_sub", "*": "op_mul", "%": "op_mod", "/": "op_div",
+var c07OpCoq = map[string]string{"+": "op_add", "-": "op_sub", "*": "op_mul", "%": "op_mod", "/": "op_div",
 	"=": "op_eq", "!=": "op_ne", "<": "op_lt", ">": "op_gt", "<=": "op_le", ">=": "op_ge"}
 
-var paramNames = []string{"a", "b", "c"}
+var c07ParamNames = []string{"a", "b", "c"}
 
-func litText(t *Tree) string {
+func c07LitText(t *Tree) string {
 	switch t.Kind {
 	case "int":
 		if t.I < 0 {
@@ -224,12 +224,12 @@ func litText(t *Tree) string {
 	panic("literal kind " + t.Kind)
 }
 
-func (e *CExp) Text(top bool) string {
+func (e *c07CExp) Text(top bool) string {
 	switch e.K {
 	case "arg":
-		return paramNames[e.I]
+		return c07ParamNames[e.I]
 	case "lit":
-		return litText(e.V)
+		return c07LitText(e.V)
 	case "op":
 		return "(" + e.A.Text(false) + e.Op + e.B.Text(false) + ")"
 	case "if":
@@ -260,14 +260,14 @@ func (e *CExp) Text(top bool) string {
 	panic("cexp kind " + e.K)
 }
 
-func (e *CExp) Coq() string {
+func (e *c07CExp) Coq() string {
 	switch e.K {
 	case "arg":
 		return fmt.Sprintf("CArg %d", e.I)
 	case "lit":
-		return "CLit (" + e.V.CoqVal() + ")"
+		return "CLit (" + e.V.c07CoqVal() + ")"
 	case "op":
-		return "COp " + opCoq[e.Op] + " (" + e.A.Coq() + ") (" + e.B.Coq() + ")"
+		return "COp " + c07OpCoq[e.Op] + " (" + e.A.Coq() + ") (" + e.B.Coq() + ")"
 	case "if":
 		return "CIf (" + e.A.Coq() + ") (" + e.B.Coq() + ") (" + e.C.Coq() + ")"
 	case "throw":
@@ -292,49 +292,49 @@ func (e *CExp) Coq() string {
 	panic("cexp kind " + e.K)
 }
 
-func cArg(i int) *CExp                { return &CExp{K: "arg", I: i} }
-func cInt(i int) *CExp                { return &CExp{K: "lit", V: &Tree{Kind: "int", I: i}} }
-func cStr(s string) *CExp             { return &CExp{K: "lit", V: &Tree{Kind: "str", S: s}} }
-func cBool(b bool) *CExp              { return &CExp{K: "lit", V: &Tree{Kind: "bool", B: b}} }
-func cOp(op string, a, b *CExp) *CExp { return &CExp{K: "op", Op: op, A: a, B: b} }
-func cIf(c, t, e *CExp) *CExp         { return &CExp{K: "if", A: c, B: t, C: e} }
-func cThrow() *CExp                   { return &CExp{K: "throw"} }
+func c07CArg(i int) *c07CExp                   { return &c07CExp{K: "arg", I: i} }
+func c07CInt(i int) *c07CExp                   { return &c07CExp{K: "lit", V: &Tree{Kind: "int", I: i}} }
+func c07CStr(s string) *c07CExp                { return &c07CExp{K: "lit", V: &Tree{Kind: "str", S: s}} }
+func c07CBool(b bool) *c07CExp                 { return &c07CExp{K: "lit", V: &Tree{Kind: "bool", B: b}} }
+func c07COp(op string, a, b *c07CExp) *c07CExp { return &c07CExp{K: "op", Op: op, A: a, B: b} }
+func c07CIf(c, t, e *c07CExp) *c07CExp         { return &c07CExp{K: "if", A: c, B: t, C: e} }
+func c07CThrow() *c07CExp                      { return &c07CExp{K: "throw"} }
 
 // ---------- pipelines ----------
 
-type Arg struct {
-	V    *Tree `json:"v,omitempty"`
-	N    int   `json:"n,omitempty"` // arity of the callback
-	Body *CExp `json:"body,omitempty"`
+type c07Arg struct {
+	V    *Tree    `json:"v,omitempty"`
+	N    int      `json:"n,omitempty"` // arity of the callback
+	Body *c07CExp `json:"body,omitempty"`
 }
 
-type Step struct {
-	M    string `json:"m"`
-	Args []Arg  `json:"args"`
+type c07Step struct {
+	M    string   `json:"m"`
+	Args []c07Arg `json:"args"`
 }
 
 type C07Case struct {
-	Src       *Tree   `json:"src,omitempty"`
-	Static    string  `json:"static,omitempty"`
-	StArgs    []*Tree `json:"stargs,omitempty"`
-	Steps     []Step  `json:"steps"`
-	Unordered bool    `json:"unordered"`
-	Origin    string  `json:"origin"` // corpus / generated / misuse
+	Src       *Tree     `json:"src,omitempty"`
+	Static    string    `json:"static,omitempty"`
+	StArgs    []*Tree   `json:"stargs,omitempty"`
+	Steps     []c07Step `json:"steps"`
+	Unordered bool      `json:"unordered"`
+	Origin    string    `json:"origin"` // corpus / generated / misuse
 }
 
-var modelledMeths = map[string]bool{}
+var c07ModelledMeths = map[string]bool{}
 
 func init() {
 	for _, n := range strings.Fields(`accept map reduce sum mapReduce mean min max minMax combine combine3 combineN indexWhere
  groupByString groupByInt groupByEqual uniqueString uniqueInt compact cross merge order orderRev orderLess reverse append
  iir iirCombine visit fsm top skip number present set size first single last eval movingWindow movingWindowRemove
  len string trim toLower toUpper contains indexOf split cut replace toInt get put isAvail list`) {
-		modelledMeths[n] = true
+		c07ModelledMeths[n] = true
 	}
 }
 
-func coqMeth(n string) string {
-	if modelledMeths[n] {
+func c07CoqMeth(n string) string {
+	if c07ModelledMeths[n] {
 		return "M_" + n
 	}
 	return "M_other " + CoqStr(n) + "%N"
@@ -364,7 +364,7 @@ func (c *C07Case) Program() (string, []string, []value.Value) {
 		parts := make([]string, len(s.Args))
 		for i, a := range s.Args {
 			if a.Body != nil {
-				ps := strings.Join(paramNames[:a.N], ",")
+				ps := strings.Join(c07ParamNames[:a.N], ",")
 				if a.N != 1 {
 					ps = "(" + ps + ")"
 				}
@@ -383,11 +383,11 @@ func (c *C07Case) Coq(id int, obs string) string {
 	if c.Static != "" {
 		parts := make([]string, len(c.StArgs))
 		for i, a := range c.StArgs {
-			parts[i] = a.CoqVal()
+			parts[i] = a.c07CoqVal()
 		}
 		src = "SrcStatic " + CoqStr(c.Static) + "%N " + CoqList(parts)
 	} else {
-		src = "SrcV (" + c.Src.CoqVal() + ")"
+		src = "SrcV (" + c.Src.c07CoqVal() + ")"
 	}
 	steps := make([]string, len(c.Steps))
 	for i, s := range c.Steps {
@@ -396,10 +396,10 @@ func (c *C07Case) Coq(id int, obs string) string {
 			if a.Body != nil {
 				args[j] = fmt.Sprintf("AF %d (%s)", a.N, a.Body.Coq())
 			} else {
-				args[j] = "AV (" + a.V.CoqVal() + ")"
+				args[j] = "AV (" + a.V.c07CoqVal() + ")"
 			}
 		}
-		steps[i] = "(" + coqMeth(s.M) + ", " + CoqList(args) + ")"
+		steps[i] = "(" + c07CoqMeth(s.M) + ", " + CoqList(args) + ")"
 	}
 	return fmt.Sprintf("(%d, %s, %s, %s, %s)", id, src, CoqList(steps), CoqBool(c.Unordered), obs)
 }
@@ -413,12 +413,12 @@ type c07Obs struct {
 	Err  string
 }
 
-func isRuntimePanic(err error) bool {
+func c07IsRuntimePanic(err error) bool {
 	var re runtime.Error
 	return errors.As(err, &re)
 }
 
-func runReal(text string, names []string, vals []value.Value) (o c07Obs) {
+func c07RunReal(text string, names []string, vals []value.Value) (o c07Obs) {
 	defer func() {
 		if r := recover(); r != nil {
 			o = c07Obs{Kind: "panic", Err: fmt.Sprint(r)}
@@ -426,14 +426,14 @@ func runReal(text string, names []string, vals []value.Value) (o c07Obs) {
 	}()
 	f, _, err := value.New().Generate(text, names...)
 	if err != nil {
-		if isRuntimePanic(err) {
+		if c07IsRuntimePanic(err) {
 			return c07Obs{Kind: "panic", Err: err.Error()}
 		}
 		return c07Obs{Kind: "fail", Err: "generate: " + err.Error()}
 	}
 	v, err := f.Eval(vals...)
 	if err != nil {
-		if isRuntimePanic(err) {
+		if c07IsRuntimePanic(err) {
 			return c07Obs{Kind: "panic", Err: err.Error()}
 		}
 		return c07Obs{Kind: "fail", Err: err.Error()}
@@ -441,12 +441,12 @@ func runReal(text string, names []string, vals []value.Value) (o c07Obs) {
 	if v == nil {
 		return c07Obs{Kind: "unrepresentable", Err: "nil value"}
 	}
-	term, err := coqObserved(v)
-	if err == errUnrepresentable {
+	term, err := c07CoqObserved(v)
+	if err == c07ErrUnrepresentable {
 		return c07Obs{Kind: "unrepresentable", Err: "closure or invalid string in the result"}
 	}
 	if err != nil {
-		if isRuntimePanic(err) {
+		if c07IsRuntimePanic(err) {
 			return c07Obs{Kind: "panic", Err: err.Error()}
 		}
 		return c07Obs{Kind: "fail", Err: err.Error()}
@@ -457,10 +457,10 @@ func runReal(text string, names []string, vals []value.Value) (o c07Obs) {
 // ---------- independent eager Go reference (oracle) ----------
 // values: int64 string bool []any ; anything else (floats, maps) makes the oracle abstain
 
-var errAbstain = errors.New("abstain")
-var errExpected = errors.New("error expected")
+var c07ErrAbstain = errors.New("abstain")
+var c07ErrExpected = errors.New("error expected")
 
-func oracleVal(t *Tree) (any, error) {
+func c07OracleVal(t *Tree) (any, error) {
 	switch t.Kind {
 	case "int":
 		return int64(t.I), nil
@@ -471,7 +471,7 @@ func oracleVal(t *Tree) (any, error) {
 	case "list":
 		xs := make([]any, len(t.Items))
 		for i, it := range t.Items {
-			x, err := oracleVal(it)
+			x, err := c07OracleVal(it)
 			if err != nil {
 				return nil, err
 			}
@@ -479,10 +479,10 @@ func oracleVal(t *Tree) (any, error) {
 		}
 		return xs, nil
 	}
-	return nil, errAbstain
+	return nil, c07ErrAbstain
 }
 
-func oracleOp(op string, a, b any) (any, error) {
+func c07OracleOp(op string, a, b any) (any, error) {
 	x, xi := a.(int64)
 	y, yi := b.(int64)
 	if xi && yi {
@@ -495,7 +495,7 @@ func oracleOp(op string, a, b any) (any, error) {
 			return x * y, nil
 		case "%":
 			if y == 0 {
-				return nil, errExpected
+				return nil, c07ErrExpected
 			}
 			return x % y, nil
 		case "=":
@@ -511,7 +511,7 @@ func oracleOp(op string, a, b any) (any, error) {
 		case ">=":
 			return x >= y, nil
 		}
-		return nil, errAbstain
+		return nil, c07ErrAbstain
 	}
 	s, si := a.(string)
 	u, ui := b.(string)
@@ -529,44 +529,44 @@ func oracleOp(op string, a, b any) (any, error) {
 			return s > u, nil
 		}
 	}
-	return nil, errAbstain
+	return nil, c07ErrAbstain
 }
 
-func (e *CExp) oracle(args []any) (any, error) {
+func (e *c07CExp) c07Oracle(args []any) (any, error) {
 	switch e.K {
 	case "arg":
 		return args[e.I], nil
 	case "lit":
-		return oracleVal(e.V)
+		return c07OracleVal(e.V)
 	case "op":
-		a, err := e.A.oracle(args)
+		a, err := e.A.c07Oracle(args)
 		if err != nil {
 			return nil, err
 		}
-		b, err := e.B.oracle(args)
+		b, err := e.B.c07Oracle(args)
 		if err != nil {
 			return nil, err
 		}
-		return oracleOp(e.Op, a, b)
+		return c07OracleOp(e.Op, a, b)
 	case "if":
-		c, err := e.A.oracle(args)
+		c, err := e.A.c07Oracle(args)
 		if err != nil {
 			return nil, err
 		}
 		cb, ok := c.(bool)
 		if !ok {
-			return nil, errExpected
+			return nil, c07ErrExpected
 		}
 		if cb {
-			return e.B.oracle(args)
+			return e.B.c07Oracle(args)
 		}
-		return e.C.oracle(args)
+		return e.C.c07Oracle(args)
 	case "throw":
-		return nil, errExpected
+		return nil, c07ErrExpected
 	case "list":
 		xs := make([]any, len(e.L))
 		for i, x := range e.L {
-			v, err := x.oracle(args)
+			v, err := x.c07Oracle(args)
 			if err != nil {
 				return nil, err
 			}
@@ -574,7 +574,7 @@ func (e *CExp) oracle(args []any) (any, error) {
 		}
 		return xs, nil
 	case "size":
-		a, err := e.A.oracle(args)
+		a, err := e.A.c07Oracle(args)
 		if err != nil {
 			return nil, err
 		}
@@ -582,62 +582,62 @@ func (e *CExp) oracle(args []any) (any, error) {
 			return int64(len(l)), nil
 		}
 	}
-	return nil, errAbstain
+	return nil, c07ErrAbstain
 }
 
-func oracleFunc(a Arg, n int) (func(...any) (any, error), error) {
+func c07OracleFunc(a c07Arg, n int) (func(...any) (any, error), error) {
 	if a.Body == nil || a.N != n {
-		return nil, errExpected
+		return nil, c07ErrExpected
 	}
-	return func(args ...any) (any, error) { return a.Body.oracle(args) }, nil
+	return func(args ...any) (any, error) { return a.Body.c07Oracle(args) }, nil
 }
 
-// eager and strict; abstains (errAbstain) on anything it does not cover, and on errors raised by a
+// eager and strict; abstains (c07ErrAbstain) on anything it does not cover, and on errors raised by a
 // callback of a lazy stage (whether they surface depends on demand)
-func oracleStep(recv any, s Step) (any, error) {
+func c07OracleStep(recv any, s c07Step) (any, error) {
 	l, isList := recv.([]any)
 	if !isList {
-		return nil, errAbstain
+		return nil, c07ErrAbstain
 	}
 	argInt := func(i int) (int64, error) {
 		if i >= len(s.Args) || s.Args[i].V == nil {
-			return 0, errAbstain
+			return 0, c07ErrAbstain
 		}
-		v, err := oracleVal(s.Args[i].V)
+		v, err := c07OracleVal(s.Args[i].V)
 		if err != nil {
 			return 0, err
 		}
 		n, ok := v.(int64)
 		if !ok {
-			return 0, errExpected
+			return 0, c07ErrExpected
 		}
 		return n, nil
 	}
 	lazy := func(err error) error {
-		if err == errExpected {
-			return errAbstain
+		if err == c07ErrExpected {
+			return c07ErrAbstain
 		}
 		return err
 	}
 	switch s.M {
 	case "size":
 		if len(s.Args) != 0 {
-			return nil, errExpected
+			return nil, c07ErrExpected
 		}
 		return int64(len(l)), nil
 	case "first":
 		if len(s.Args) != 0 || len(l) == 0 {
-			return nil, errExpected
+			return nil, c07ErrExpected
 		}
 		return l[0], nil
 	case "last":
 		if len(s.Args) != 0 || len(l) == 0 {
-			return nil, errExpected
+			return nil, c07ErrExpected
 		}
 		return l[len(l)-1], nil
 	case "reverse":
 		if len(s.Args) != 0 {
-			return nil, errExpected
+			return nil, c07ErrExpected
 		}
 		out := make([]any, len(l))
 		for i, x := range l {
@@ -646,14 +646,14 @@ func oracleStep(recv any, s Step) (any, error) {
 		return out, nil
 	case "top", "skip":
 		if len(s.Args) != 1 {
-			return nil, errExpected
+			return nil, c07ErrExpected
 		}
 		n, err := argInt(0)
 		if err != nil {
 			return nil, err
 		}
 		if n < 0 {
-			return nil, errAbstain // the description does not say
+			return nil, c07ErrAbstain // the description does not say
 		}
 		if n > int64(len(l)) {
 			n = int64(len(l))
@@ -664,9 +664,9 @@ func oracleStep(recv any, s Step) (any, error) {
 		return append([]any{}, l[n:]...), nil
 	case "map", "accept", "indexWhere", "present":
 		if len(s.Args) != 1 {
-			return nil, errExpected
+			return nil, c07ErrExpected
 		}
-		f, err := oracleFunc(s.Args[0], 1)
+		f, err := c07OracleFunc(s.Args[0], 1)
 		if err != nil {
 			return nil, err
 		}
@@ -686,9 +686,9 @@ func oracleStep(recv any, s Step) (any, error) {
 			b, ok := y.(bool)
 			if !ok {
 				if s.M == "accept" {
-					return nil, errAbstain
+					return nil, c07ErrAbstain
 				}
-				return nil, errExpected
+				return nil, c07ErrExpected
 			}
 			if s.M == "accept" && b {
 				out = append(out, x)
@@ -711,26 +711,26 @@ func oracleStep(recv any, s Step) (any, error) {
 		var f func(...any) (any, error)
 		if s.M == "sum" {
 			if len(s.Args) != 0 {
-				return nil, errExpected
+				return nil, c07ErrExpected
 			}
 			f = func(a ...any) (any, error) {
 				if _, ok := a[0].(int64); !ok {
-					return nil, errAbstain
+					return nil, c07ErrAbstain
 				}
-				return oracleOp("+", a[0], a[1])
+				return c07OracleOp("+", a[0], a[1])
 			}
 		} else {
 			if len(s.Args) != 1 {
-				return nil, errExpected
+				return nil, c07ErrExpected
 			}
 			var err error
-			f, err = oracleFunc(s.Args[0], 2)
+			f, err = c07OracleFunc(s.Args[0], 2)
 			if err != nil {
 				return nil, err
 			}
 		}
 		if len(l) == 0 {
-			return nil, errExpected
+			return nil, c07ErrExpected
 		}
 		acc := l[0]
 		for _, x := range l[1:] {
@@ -743,9 +743,9 @@ func oracleStep(recv any, s Step) (any, error) {
 		return acc, nil
 	case "combine", "number":
 		if len(s.Args) != 1 {
-			return nil, errExpected
+			return nil, c07ErrExpected
 		}
-		f, err := oracleFunc(s.Args[0], 2)
+		f, err := c07OracleFunc(s.Args[0], 2)
 		if err != nil {
 			return nil, err
 		}
@@ -767,16 +767,16 @@ func oracleStep(recv any, s Step) (any, error) {
 		return out, nil
 	case "combineN":
 		if len(s.Args) != 2 {
-			return nil, errExpected
+			return nil, c07ErrExpected
 		}
 		n, err := argInt(0)
 		if err != nil {
 			return nil, err
 		}
 		if n < 1 {
-			return nil, errExpected
+			return nil, c07ErrExpected
 		}
-		f, err := oracleFunc(s.Args[1], 1)
+		f, err := c07OracleFunc(s.Args[1], 1)
 		if err != nil {
 			return nil, err
 		}
@@ -791,21 +791,21 @@ func oracleStep(recv any, s Step) (any, error) {
 		return out, nil
 	case "append":
 		if len(s.Args) != 1 || s.Args[0].V == nil {
-			return nil, errAbstain
+			return nil, c07ErrAbstain
 		}
-		v, err := oracleVal(s.Args[0].V)
+		v, err := c07OracleVal(s.Args[0].V)
 		if err != nil {
 			return nil, err
 		}
 		return append(append([]any{}, l...), v), nil
 	}
-	return nil, errAbstain
+	return nil, c07ErrAbstain
 }
 
-func oracleCoq(v any) string {
+func c07OracleCoq(v any) string {
 	switch x := v.(type) {
 	case int64:
-		return "VInt " + coqZ(x)
+		return "VInt " + c07CoqZ(x)
 	case string:
 		return "VStr " + CoqStr(x)
 	case bool:
@@ -813,7 +813,7 @@ func oracleCoq(v any) string {
 	case []any:
 		parts := make([]string, len(x))
 		for i, it := range x {
-			parts[i] = oracleCoq(it)
+			parts[i] = c07OracleCoq(it)
 		}
 		return "VList " + CoqList(parts)
 	}
@@ -821,30 +821,30 @@ func oracleCoq(v any) string {
 }
 
 // verdict of the oracle on a case: "" = agrees or abstains
-func (c *C07Case) oracleVerdict(o c07Obs) (string, string) {
+func (c *C07Case) c07OracleVerdict(o c07Obs) (string, string) {
 	if c.Static != "" || c.Src == nil {
 		return "", ""
 	}
-	v, err := oracleVal(c.Src)
+	v, err := c07OracleVal(c.Src)
 	if err != nil {
 		return "", ""
 	}
 	for _, s := range c.Steps {
-		v, err = oracleStep(v, s)
+		v, err = c07OracleStep(v, s)
 		if err != nil {
 			break
 		}
 	}
-	if err == errAbstain {
+	if err == c07ErrAbstain {
 		return "", ""
 	}
-	if err == errExpected {
+	if err == c07ErrExpected {
 		if o.Kind == "ok" {
 			return "the eager Go reference requires an error, the implementation returned a value", "error"
 		}
 		return "", ""
 	}
-	want := oracleCoq(v)
+	want := c07OracleCoq(v)
 	if o.Kind != "ok" {
 		return "the eager Go reference computes a value, the implementation reported " + o.Kind + ": " + o.Err, want
 	}
@@ -856,7 +856,7 @@ func (c *C07Case) oracleVerdict(o c07Obs) (string, string) {
 
 // ---------- signatures ----------
 
-func intClass(n, size int) string {
+func c07IntClass(n, size int) string {
 	switch {
 	case n < 0:
 		return "negative"
@@ -891,7 +891,7 @@ func (c *C07Case) Signature() string {
 	}
 	for _, a := range last.Args {
 		if a.V != nil && a.V.Kind == "int" {
-			cls = append(cls, "int-"+intClass(a.V.I, size))
+			cls = append(cls, "int-"+c07IntClass(a.V.I, size))
 		}
 	}
 	return last.M + " " + strings.Join(cls, ",")
@@ -899,19 +899,19 @@ func (c *C07Case) Signature() string {
 
 // ---------- generators ----------
 
-func tInt(i int) *Tree       { return &Tree{Kind: "int", I: i} }
-func tStr(s string) *Tree    { return &Tree{Kind: "str", S: s} }
-func tFloat(f float64) *Tree { return &Tree{Kind: "float", F: f} }
-func tList(items ...*Tree) *Tree {
+func c07TInt(i int) *Tree       { return &Tree{Kind: "int", I: i} }
+func c07TStr(s string) *Tree    { return &Tree{Kind: "str", S: s} }
+func c07TFloat(f float64) *Tree { return &Tree{Kind: "float", F: f} }
+func c07TList(items ...*Tree) *Tree {
 	return &Tree{Kind: "list", Repr: "eager", Items: items}
 }
-func tMap(keys []string, items ...*Tree) *Tree {
+func c07TMap(keys []string, items ...*Tree) *Tree {
 	return &Tree{Kind: "map", Repr: "listmap", Keys: keys, Items: items}
 }
-func tInts(xs ...int) *Tree {
-	t := tList()
+func c07TInts(xs ...int) *Tree {
+	t := c07TList()
 	for _, x := range xs {
-		t.Items = append(t.Items, tInt(x))
+		t.Items = append(t.Items, c07TInt(x))
 	}
 	return t
 }
@@ -920,9 +920,9 @@ var c07Strings = []string{"", "a", "ab", "aba", "abab", "a,b,,c", " a b ", "\t x
 
 func (r *Rng) c07Int() *Tree {
 	if r.Chance(0.08) {
-		return tInt([]int{1 << 31, 1<<53 + 1, math.MaxInt64, math.MinInt64, -1 << 40}[r.Pick(5)])
+		return c07TInt([]int{1 << 31, 1<<53 + 1, math.MaxInt64, math.MinInt64, -1 << 40}[r.Pick(5)])
 	}
-	return tInt(r.Pick(12) - 3)
+	return c07TInt(r.Pick(12) - 3)
 }
 
 func (r *Rng) c07Elem(kind string) *Tree {
@@ -931,20 +931,20 @@ func (r *Rng) c07Elem(kind string) *Tree {
 		return r.c07Int()
 	case "num":
 		if r.Chance(0.4) {
-			return tFloat(float64(r.Pick(17)-6) / 2)
+			return c07TFloat(float64(r.Pick(17)-6) / 2)
 		}
 		return r.c07Int()
 	case "str":
-		return tStr(c07Strings[r.Pick(len(c07Strings))])
+		return c07TStr(c07Strings[r.Pick(len(c07Strings))])
 	case "list":
 		n := r.Pick(4)
 		xs := make([]int, n)
 		for i := range xs {
 			xs[i] = r.Pick(6)
 		}
-		return tInts(xs...)
+		return c07TInts(xs...)
 	case "map":
-		return tMap([]string{"k", "w"}, tInt(r.Pick(4)), tStr(c07Strings[r.Pick(6)]))
+		return c07TMap([]string{"k", "w"}, c07TInt(r.Pick(4)), c07TStr(c07Strings[r.Pick(6)]))
 	}
 	// mixed
 	return r.c07Elem([]string{"int", "num", "str", "list", "int"}[r.Pick(5)])
@@ -954,7 +954,7 @@ func (r *Rng) c07Elem(kind string) *Tree {
 func (r *Rng) c07List() (*Tree, string) {
 	shapes := []string{"empty", "single", "dups", "dups", "dups", "sorted", "sorted", "sorted", "reversed", "reversed", "random", "random", "random", "random", "random", "random", "numeric-mixed", "numeric-mixed", "nested-lists", "nested-maps", "strings", "heterogeneous"}
 	shape := shapes[r.Pick(len(shapes))]
-	t := tList()
+	t := c07TList()
 	n := 2 + r.Pick(7)
 	switch shape {
 	case "empty":
@@ -962,12 +962,12 @@ func (r *Rng) c07List() (*Tree, string) {
 		t.Items = []*Tree{r.c07Elem("int")}
 	case "dups":
 		for i := 0; i < n; i++ {
-			t.Items = append(t.Items, tInt(r.Pick(3)))
+			t.Items = append(t.Items, c07TInt(r.Pick(3)))
 		}
 	case "sorted", "reversed":
 		x := r.Pick(5) - 3
 		for i := 0; i < n; i++ {
-			t.Items = append(t.Items, tInt(x))
+			t.Items = append(t.Items, c07TInt(x))
 			x += r.Pick(3)
 		}
 		if shape == "reversed" {
@@ -1009,7 +1009,7 @@ func (r *Rng) c07List() (*Tree, string) {
 func (r *Rng) c07Map() *Tree {
 	keys := []string{"a", "b", "k", "", "ä", "state", "x y"}
 	n := r.Pick(5)
-	t := tMap(nil)
+	t := c07TMap(nil)
 	perm := r.Perm(len(keys))
 	for i := 0; i < n; i++ {
 		t.Keys = append(t.Keys, keys[perm[i]])
@@ -1019,158 +1019,162 @@ func (r *Rng) c07Map() *Tree {
 }
 
 // callback pool; k = number of parameters
-func (r *Rng) cb1(want string) *CExp {
+func (r *Rng) c07Cb1(want string) *c07CExp {
 	k := 1 + r.Pick(4)
 	c := r.Pick(7) - 2
 	switch want {
 	case "bool":
 		switch r.Pick(5) {
 		case 0:
-			return cOp("=", cOp("%", cArg(0), cInt(1+r.Pick(3))), cInt(r.Pick(2)))
+			return c07COp("=", c07COp("%", c07CArg(0), c07CInt(1+r.Pick(3))), c07CInt(r.Pick(2)))
 		case 1:
-			return cOp("<", cArg(0), cInt(c))
+			return c07COp("<", c07CArg(0), c07CInt(c))
 		case 2:
-			return cOp(">=", cArg(0), cInt(c))
+			return c07COp(">=", c07CArg(0), c07CInt(c))
 		case 3:
-			return cBool(r.Chance(0.5))
+			return c07CBool(r.Chance(0.5))
 		}
-		return cOp("=", cArg(0), cInt(c))
+		return c07COp("=", c07CArg(0), c07CInt(c))
 	case "key":
 		switch r.Pick(4) {
 		case 0:
-			return cOp("%", cArg(0), cInt(1+r.Pick(3)))
+			return c07COp("%", c07CArg(0), c07CInt(1+r.Pick(3)))
 		case 1:
-			return cArg(0)
+			return c07CArg(0)
 		case 2:
-			return cOp("*", cArg(0), cInt(-1))
+			return c07COp("*", c07CArg(0), c07CInt(-1))
 		}
-		return cOp("+", cOp("*", cArg(0), cInt(0)), cInt(c))
+		return c07COp("+", c07COp("*", c07CArg(0), c07CInt(0)), c07CInt(c))
 	case "listsize":
 		switch r.Pick(3) {
 		case 0:
-			return &CExp{K: "size", A: cArg(0)}
+			return &c07CExp{K: "size", A: c07CArg(0)}
 		case 1:
-			return &CExp{K: "sum", A: cArg(0)}
+			return &c07CExp{K: "sum", A: c07CArg(0)}
 		}
-		return cOp("-", cOp("*", &CExp{K: "index", A: cArg(0), B: cInt(0)}, cInt(10)), &CExp{K: "index", A: cArg(0), B: cInt(r.Pick(3))})
+		return c07COp("-", c07COp("*", &c07CExp{K: "index", A: c07CArg(0), B: c07CInt(0)}, c07CInt(10)), &c07CExp{K: "index", A: c07CArg(0), B: c07CInt(r.Pick(3))})
 	case "listbool":
 		switch r.Pick(3) {
 		case 0:
-			return cOp(">", &CExp{K: "size", A: cArg(0)}, cInt(1+r.Pick(3)))
+			return c07COp(">", &c07CExp{K: "size", A: c07CArg(0)}, c07CInt(1+r.Pick(3)))
 		case 1:
-			return cOp(">", &CExp{K: "sum", A: cArg(0)}, cInt(r.Pick(12)))
+			return c07COp(">", &c07CExp{K: "sum", A: c07CArg(0)}, c07CInt(r.Pick(12)))
 		}
-		return cBool(r.Chance(0.5))
+		return c07CBool(r.Chance(0.5))
 	}
 	switch r.Pick(7) {
 	case 0, 1:
-		return cOp("+", cOp("*", cArg(0), cInt(k)), cInt(c))
+		return c07COp("+", c07COp("*", c07CArg(0), c07CInt(k)), c07CInt(c))
 	case 2:
-		return cArg(0)
+		return c07CArg(0)
 	case 3:
-		return cStr("s")
+		return c07CStr("s")
 	case 4:
-		return &CExp{K: "list", L: []*CExp{cArg(0), cInt(c)}}
+		return &c07CExp{K: "list", L: []*c07CExp{c07CArg(0), c07CInt(c)}}
 	case 5:
-		return cOp("/", cArg(0), cInt(2))
+		return c07COp("/", c07CArg(0), c07CInt(2))
 	}
-	return cOp("-", cArg(0), cInt(k))
+	return c07COp("-", c07CArg(0), c07CInt(k))
 }
 
-func (r *Rng) cb2(want string) *CExp {
+func (r *Rng) c07Cb2(want string) *c07CExp {
 	switch want {
 	case "bool":
 		switch r.Pick(5) {
 		case 0:
-			return cOp("<", cArg(0), cArg(1))
+			return c07COp("<", c07CArg(0), c07CArg(1))
 		case 1:
-			return cOp("=", cArg(0), cArg(1))
+			return c07COp("=", c07CArg(0), c07CArg(1))
 		case 2:
-			return cOp(">", cArg(0), cArg(1))
+			return c07COp(">", c07CArg(0), c07CArg(1))
 		case 3:
-			return cOp("<=", cArg(0), cArg(1))
+			return c07COp("<=", c07CArg(0), c07CArg(1))
 		}
-		return cBool(r.Chance(0.5))
+		return c07CBool(r.Chance(0.5))
 	case "less":
 		if r.Chance(0.7) {
-			return cOp("<", cArg(0), cArg(1))
+			return c07COp("<", c07CArg(0), c07CArg(1))
 		}
-		return cOp(">", cArg(0), cArg(1))
+		return c07COp(">", c07CArg(0), c07CArg(1))
 	case "state":
-		return &CExp{K: "goto", A: cOp("+", &CExp{K: "member", A: cArg(0), Key: "state"}, cArg(1))}
+		return &c07CExp{K: "goto", A: c07COp("+", &c07CExp{K: "member", A: c07CArg(0), Key: "state"}, c07CArg(1))}
 	}
 	switch r.Pick(6) {
 	case 0, 1:
-		return cOp("+", cArg(0), cArg(1))
+		return c07COp("+", c07CArg(0), c07CArg(1))
 	case 2:
-		return cOp("-", cOp("*", cArg(0), cArg(1)), cArg(1))
+		return c07COp("-", c07COp("*", c07CArg(0), c07CArg(1)), c07CArg(1))
 	case 3:
-		return &CExp{K: "list", L: []*CExp{cArg(0), cArg(1)}}
+		return &c07CExp{K: "list", L: []*c07CExp{c07CArg(0), c07CArg(1)}}
 	case 4:
-		return cOp("-", cArg(0), cArg(1))
+		return c07COp("-", c07CArg(0), c07CArg(1))
 	}
-	return cArg(1)
+	return c07CArg(1)
 }
 
-func (r *Rng) cb3() *CExp {
+func (r *Rng) c07Cb3() *c07CExp {
 	switch r.Pick(3) {
 	case 0:
-		return cOp("+", cOp("+", cArg(0), cArg(1)), cArg(2))
+		return c07COp("+", c07COp("+", c07CArg(0), c07CArg(1)), c07CArg(2))
 	case 1:
-		return cOp("-", cOp("*", cArg(0), cInt(100)), cOp("+", cOp("*", cArg(1), cInt(10)), cArg(2)))
+		return c07COp("-", c07COp("*", c07CArg(0), c07CInt(100)), c07COp("+", c07COp("*", c07CArg(1), c07CInt(10)), c07CArg(2)))
 	}
-	return cArg(1)
+	return c07CArg(1)
 }
 
 // spoil a callback: fails at one element, or returns the wrong type
-func (r *Rng) spoil(body *CExp) *CExp {
+func (r *Rng) c07Spoil(body *c07CExp) *c07CExp {
 	switch r.Pick(3) {
 	case 0:
-		return cIf(cOp("=", cArg(0), cInt(r.Pick(5))), cThrow(), body)
+		return c07CIf(c07COp("=", c07CArg(0), c07CInt(r.Pick(5))), c07CThrow(), body)
 	case 1:
-		return cStr("s")
+		return c07CStr("s")
 	}
-	return cIf(cOp("=", cArg(0), cInt(r.Pick(5))), cStr("s"), body)
+	return c07CIf(c07COp("=", c07CArg(0), c07CInt(r.Pick(5))), c07CStr("s"), body)
 }
 
-func fn(n int, body *CExp) Arg { return Arg{N: n, Body: body} }
-func val(t *Tree) Arg          { return Arg{V: t} }
+func c07Fn(n int, body *c07CExp) c07Arg { return c07Arg{N: n, Body: body} }
+func c07Val(t *Tree) c07Arg             { return c07Arg{V: t} }
 
-type methSpec struct {
+type c07MethSpec struct {
 	recv string // list str map any
 	out  string // list str map num bool any
-	gen  func(r *Rng) []Arg
+	gen  func(r *Rng) []c07Arg
 }
 
-func (r *Rng) nArg() *Tree {
-	return tInt([]int{0, 1, 2, 3, -1, 5, 100, -7, 1}[r.Pick(9)])
+func (r *Rng) c07NArg() *Tree {
+	return c07TInt([]int{0, 1, 2, 3, -1, 5, 100, -7, 1}[r.Pick(9)])
 }
 
-var c07Meths map[string]methSpec
+var c07Meths map[string]c07MethSpec
 var c07ListNames, c07StrNames, c07MapNames []string
 
 func init() {
-	f1 := func(w string) func(r *Rng) []Arg { return func(r *Rng) []Arg { return []Arg{fn(1, r.cb1(w))} } }
-	f2 := func(w string) func(r *Rng) []Arg { return func(r *Rng) []Arg { return []Arg{fn(2, r.cb2(w))} } }
-	none := func(r *Rng) []Arg { return nil }
-	nOnly := func(r *Rng) []Arg { return []Arg{val(r.nArg())} }
-	strArg := func(r *Rng) []Arg {
-		return []Arg{val(tStr([]string{"", "a", "b", "ab", ",", " ", "ä", "😀", "aa", "1"}[r.Pick(10)]))}
+	f1 := func(w string) func(r *Rng) []c07Arg {
+		return func(r *Rng) []c07Arg { return []c07Arg{c07Fn(1, r.c07Cb1(w))} }
 	}
-	c07Meths = map[string]methSpec{
+	f2 := func(w string) func(r *Rng) []c07Arg {
+		return func(r *Rng) []c07Arg { return []c07Arg{c07Fn(2, r.c07Cb2(w))} }
+	}
+	none := func(r *Rng) []c07Arg { return nil }
+	nOnly := func(r *Rng) []c07Arg { return []c07Arg{c07Val(r.c07NArg())} }
+	strArg := func(r *Rng) []c07Arg {
+		return []c07Arg{c07Val(c07TStr([]string{"", "a", "b", "ab", ",", " ", "ä", "😀", "aa", "1"}[r.Pick(10)]))}
+	}
+	c07Meths = map[string]c07MethSpec{
 		"accept":        {"list", "list", f1("bool")},
 		"map":           {"list", "list", f1("")},
 		"reduce":        {"list", "any", f2("")},
 		"sum":           {"list", "any", none},
-		"mapReduce":     {"list", "any", func(r *Rng) []Arg { return []Arg{val(r.c07Int()), fn(2, r.cb2(""))} }},
-		"visit":         {"list", "any", func(r *Rng) []Arg { return []Arg{val(r.c07Int()), fn(2, r.cb2(""))} }},
+		"mapReduce":     {"list", "any", func(r *Rng) []c07Arg { return []c07Arg{c07Val(r.c07Int()), c07Fn(2, r.c07Cb2(""))} }},
+		"visit":         {"list", "any", func(r *Rng) []c07Arg { return []c07Arg{c07Val(r.c07Int()), c07Fn(2, r.c07Cb2(""))} }},
 		"mean":          {"list", "num", none},
 		"min":           {"list", "any", none},
 		"max":           {"list", "any", none},
 		"minMax":        {"list", "map", f1("key")},
 		"combine":       {"list", "list", f2("")},
-		"combine3":      {"list", "list", func(r *Rng) []Arg { return []Arg{fn(3, r.cb3())} }},
-		"combineN":      {"list", "list", func(r *Rng) []Arg { return []Arg{val(r.nArg()), fn(1, r.cb1("listsize"))} }},
+		"combine3":      {"list", "list", func(r *Rng) []c07Arg { return []c07Arg{c07Fn(3, r.c07Cb3())} }},
+		"combineN":      {"list", "list", func(r *Rng) []c07Arg { return []c07Arg{c07Val(r.c07NArg()), c07Fn(1, r.c07Cb1("listsize"))} }},
 		"indexWhere":    {"list", "num", f1("bool")},
 		"present":       {"list", "bool", f1("bool")},
 		"groupByString": {"list", "ulist", f1("key")},
@@ -1179,29 +1183,29 @@ func init() {
 		"uniqueString":  {"list", "ulist", f1("key")},
 		"uniqueInt":     {"list", "ulist", f1("key")},
 		"compact":       {"list", "list", f2("bool")},
-		"cross": {"list", "list", func(r *Rng) []Arg {
+		"cross": {"list", "list", func(r *Rng) []c07Arg {
 			o, _ := r.c07List()
 			if len(o.Items) > 4 {
 				o.Items = o.Items[:4]
 			}
-			return []Arg{val(o), fn(2, r.cb2(""))}
+			return []c07Arg{c07Val(o), c07Fn(2, r.c07Cb2(""))}
 		}},
-		"merge": {"first", "list", func(r *Rng) []Arg {
+		"merge": {"first", "list", func(r *Rng) []c07Arg {
 			o, _ := r.c07List()
-			return []Arg{val(o), fn(2, r.cb2("less"))}
+			return []c07Arg{c07Val(o), c07Fn(2, r.c07Cb2("less"))}
 		}},
 		"order":              {"list", "list", f1("key")},
 		"orderRev":           {"list", "list", f1("key")},
 		"orderLess":          {"list", "list", f2("less")},
 		"reverse":            {"list", "list", none},
-		"append":             {"list", "list", func(r *Rng) []Arg { return []Arg{val(r.c07Elem("mixed"))} }},
-		"iir":                {"list", "list", func(r *Rng) []Arg { return []Arg{fn(1, r.cb1("")), fn(2, r.cb2(""))} }},
-		"iirCombine":         {"list", "list", func(r *Rng) []Arg { return []Arg{fn(1, r.cb1("")), fn(3, r.cb3())} }},
+		"append":             {"list", "list", func(r *Rng) []c07Arg { return []c07Arg{c07Val(r.c07Elem("mixed"))} }},
+		"iir":                {"list", "list", func(r *Rng) []c07Arg { return []c07Arg{c07Fn(1, r.c07Cb1("")), c07Fn(2, r.c07Cb2(""))} }},
+		"iirCombine":         {"list", "list", func(r *Rng) []c07Arg { return []c07Arg{c07Fn(1, r.c07Cb1("")), c07Fn(3, r.c07Cb3())} }},
 		"fsm":                {"list", "list", f2("state")},
 		"top":                {"list", "list", nOnly},
 		"skip":               {"list", "list", nOnly},
 		"number":             {"list", "list", f2("")},
-		"set":                {"list", "list", func(r *Rng) []Arg { return []Arg{val(r.nArg()), val(r.c07Elem("mixed"))} }},
+		"set":                {"list", "list", func(r *Rng) []c07Arg { return []c07Arg{c07Val(r.c07NArg()), c07Val(r.c07Elem("mixed"))} }},
 		"size":               {"list", "num", none},
 		"first":              {"list", "any", none},
 		"single":             {"list", "any", none},
@@ -1218,22 +1222,22 @@ func init() {
 		"contains": {"str", "bool", strArg},
 		"indexOf":  {"str", "num", strArg},
 		"split":    {"str", "list", strArg},
-		"cut":      {"str", "str", func(r *Rng) []Arg { return []Arg{val(r.nArg()), val(r.nArg())} }},
-		"replace": {"str", "str", func(r *Rng) []Arg {
+		"cut":      {"str", "str", func(r *Rng) []c07Arg { return []c07Arg{c07Val(r.c07NArg()), c07Val(r.c07NArg())} }},
+		"replace": {"str", "str", func(r *Rng) []c07Arg {
 			s := []string{"", "a", "b", "ab", ",", "ä", "xy"}
-			return []Arg{val(tStr(s[r.Pick(len(s))])), val(tStr(s[r.Pick(len(s))]))}
+			return []c07Arg{c07Val(c07TStr(s[r.Pick(len(s))])), c07Val(c07TStr(s[r.Pick(len(s))]))}
 		}},
 		"toInt": {"str", "num", none},
 		// maps
-		"get": {"map", "any", func(r *Rng) []Arg { return []Arg{val(tStr([]string{"a", "b", "k", "", "zz"}[r.Pick(5)]))} }},
-		"put": {"map", "map", func(r *Rng) []Arg {
-			return []Arg{val(tStr([]string{"a", "new", "", "zz"}[r.Pick(4)])), val(r.c07Elem("int"))}
+		"get": {"map", "any", func(r *Rng) []c07Arg { return []c07Arg{c07Val(c07TStr([]string{"a", "b", "k", "", "zz"}[r.Pick(5)]))} }},
+		"put": {"map", "map", func(r *Rng) []c07Arg {
+			return []c07Arg{c07Val(c07TStr([]string{"a", "new", "", "zz"}[r.Pick(4)])), c07Val(r.c07Elem("int"))}
 		}},
-		"isAvail": {"map", "bool", func(r *Rng) []Arg {
+		"isAvail": {"map", "bool", func(r *Rng) []c07Arg {
 			n := r.Pick(3)
-			var as []Arg
+			var as []c07Arg
 			for i := 0; i < n; i++ {
-				as = append(as, val(tStr([]string{"a", "b", "k", "zz"}[r.Pick(4)])))
+				as = append(as, c07Val(c07TStr([]string{"a", "b", "k", "zz"}[r.Pick(4)])))
 			}
 			return as
 		}},
@@ -1256,42 +1260,42 @@ func init() {
 }
 
 // map methods that share a name with list methods
-func (r *Rng) mapStep() Step {
+func (r *Rng) c07MapStep() c07Step {
 	switch r.Pick(9) {
 	case 0:
-		return Step{M: "accept", Args: []Arg{fn(2, cOp([]string{"<", "=", "!="}[r.Pick(3)], cArg(0), cStr("b")))}}
+		return c07Step{M: "accept", Args: []c07Arg{c07Fn(2, c07COp([]string{"<", "=", "!="}[r.Pick(3)], c07CArg(0), c07CStr("b")))}}
 	case 1:
-		return Step{M: "map", Args: []Arg{fn(2, r.cb2(""))}}
+		return c07Step{M: "map", Args: []c07Arg{c07Fn(2, r.c07Cb2(""))}}
 	case 2:
 		o := r.c07Map()
-		return Step{M: "combine", Args: []Arg{val(o), fn(2, r.cb2(""))}}
+		return c07Step{M: "combine", Args: []c07Arg{c07Val(o), c07Fn(2, r.c07Cb2(""))}}
 	}
 	n := c07MapNames[r.Pick(len(c07MapNames))]
 	if m, ok := c07Meths[n]; ok && m.recv == "map" {
-		return Step{M: n, Args: m.gen(r)}
+		return c07Step{M: n, Args: m.gen(r)}
 	}
-	return Step{M: n}
+	return c07Step{M: n}
 }
 
-func (r *Rng) misuse(s Step, kind string) (Step, string) {
+func (r *Rng) c07Misuse(s c07Step, kind string) (c07Step, string) {
 	switch r.Pick(6) {
 	case 0: // wrong arity of the call
 		if r.Chance(0.5) && len(s.Args) > 0 {
 			s.Args = s.Args[:len(s.Args)-1]
 		} else {
-			s.Args = append(append([]Arg{}, s.Args...), val(tInt(1)))
+			s.Args = append(append([]c07Arg{}, s.Args...), c07Val(c07TInt(1)))
 		}
 		return s, "call-arity"
 	case 1: // wrong argument type
 		if len(s.Args) > 0 {
 			i := r.Pick(len(s.Args))
-			as := append([]Arg{}, s.Args...)
+			as := append([]c07Arg{}, s.Args...)
 			if as[i].Body != nil {
-				as[i] = val(tInt(3))
+				as[i] = c07Val(c07TInt(3))
 			} else if as[i].V.Kind == "int" {
-				as[i] = val(tStr("x"))
+				as[i] = c07Val(c07TStr("x"))
 			} else {
-				as[i] = val(tInt(3))
+				as[i] = c07Val(c07TInt(3))
 			}
 			s.Args = as
 			return s, "argument-type"
@@ -1299,9 +1303,9 @@ func (r *Rng) misuse(s Step, kind string) (Step, string) {
 	case 2: // callback with the wrong number of parameters
 		for i, a := range s.Args {
 			if a.Body != nil {
-				as := append([]Arg{}, s.Args...)
+				as := append([]c07Arg{}, s.Args...)
 				n := a.N%3 + 1
-				as[i] = fn(n, cArg(0))
+				as[i] = c07Fn(n, c07CArg(0))
 				s.Args = as
 				return s, "callback-arity"
 			}
@@ -1309,8 +1313,8 @@ func (r *Rng) misuse(s Step, kind string) (Step, string) {
 	case 3, 4: // callback failing at an element / returning the wrong type
 		for i, a := range s.Args {
 			if a.Body != nil {
-				as := append([]Arg{}, s.Args...)
-				as[i] = fn(a.N, r.spoil(a.Body))
+				as := append([]c07Arg{}, s.Args...)
+				as[i] = c07Fn(a.N, r.c07Spoil(a.Body))
 				s.Args = as
 				return s, "callback-result"
 			}
@@ -1319,19 +1323,19 @@ func (r *Rng) misuse(s Step, kind string) (Step, string) {
 		other := map[string][]string{"list": {"len", "get", "cut"}, "str": {"map", "size", "get"}, "map": {"top", "len", "first"}, "num": {"size", "len"}, "bool": {"size"}, "any": {"nosuch"}, "ulist": {"len"}}
 		ns := other[kind]
 		if len(ns) > 0 {
-			return Step{M: ns[r.Pick(len(ns))]}, "foreign-method"
+			return c07Step{M: ns[r.Pick(len(ns))]}, "foreign-method"
 		}
 	}
 	return s, ""
 }
 
-func (r *Rng) genCase() *C07Case {
+func (r *Rng) c07GenCase() *C07Case {
 	c := &C07Case{Origin: "generated"}
 	kind := "list"
 	switch r.Pick(10) {
 	case 0, 1:
 		kind = "str"
-		c.Src = tStr(c07Strings[r.Pick(len(c07Strings))])
+		c.Src = c07TStr(c07Strings[r.Pick(len(c07Strings))])
 	case 2:
 		kind = "map"
 		c.Src = r.c07Map()
@@ -1360,7 +1364,7 @@ func (r *Rng) genCase() *C07Case {
 			c.StArgs = append(c.StArgs, r.c07Elem(k))
 		}
 		if st == "numbers" {
-			c.StArgs = []*Tree{tInt(r.Pick(8))}
+			c.StArgs = []*Tree{c07TInt(r.Pick(8))}
 			kind = "list"
 		} else {
 			kind = "num"
@@ -1374,7 +1378,7 @@ func (r *Rng) genCase() *C07Case {
 		nsteps = r.Pick(2)
 	}
 	for i := 0; i < nsteps; i++ {
-		var s Step
+		var s c07Step
 		switch kind {
 		case "list":
 			for {
@@ -1382,36 +1386,36 @@ func (r *Rng) genCase() *C07Case {
 				if n == "merge" {
 					continue
 				}
-				s = Step{M: n, Args: c07Meths[n].gen(r)}
+				s = c07Step{M: n, Args: c07Meths[n].gen(r)}
 				break
 			}
 			if i == 0 && c.Static == "" && c.Src.Repr == "eager" && r.Chance(0.06) {
-				s = Step{M: "merge", Args: c07Meths["merge"].gen(r)}
+				s = c07Step{M: "merge", Args: c07Meths["merge"].gen(r)}
 			}
 		case "ulist":
-			s = Step{M: "size"}
+			s = c07Step{M: "size"}
 		case "str":
 			n := c07StrNames[r.Pick(len(c07StrNames))]
-			s = Step{M: n, Args: c07Meths[n].gen(r)}
+			s = c07Step{M: n, Args: c07Meths[n].gen(r)}
 		case "map":
-			s = r.mapStep()
+			s = r.c07MapStep()
 		default:
-			s = Step{M: "string"}
+			s = c07Step{M: "string"}
 		}
 		// keep the share of plain successes up: fit the receiver to methods that need a special one
 		if i == 0 && c.Static == "" {
 			switch {
 			case s.M == "toInt" && r.Chance(0.6):
-				c.Src = tStr([]string{"12", "-7", "+5", "007", "0", "9223372036854775807", "-9223372036854775808", "42"}[r.Pick(8)])
+				c.Src = c07TStr([]string{"12", "-7", "+5", "007", "0", "9223372036854775807", "-9223372036854775808", "42"}[r.Pick(8)])
 			case s.M == "single" && c.Src.Kind == "list" && len(c.Src.Items) > 1 && r.Chance(0.6):
 				c.Src.Items = c.Src.Items[:1]
 			case s.M == "set" && c.Src.Kind == "list" && len(c.Src.Items) > 0 && r.Chance(0.7):
-				s.Args[0] = val(tInt(r.Pick(len(c.Src.Items))))
+				s.Args[0] = c07Val(c07TInt(r.Pick(len(c.Src.Items))))
 			}
 		}
 		if r.Chance(0.07) {
 			var what string
-			s, what = r.misuse(s, kind)
+			s, what = r.c07Misuse(s, kind)
 			if what != "" {
 				c.Origin = "misuse:" + what
 			}
@@ -1449,50 +1453,50 @@ func (r *Rng) genCase() *C07Case {
 
 // corpus: inputs that have failed in the past (or are boundary cases of the known defects)
 func c07Corpus() []*C07Case {
-	l := func(xs ...int) *Tree { return tInts(xs...) }
-	mk := func(src *Tree, steps ...Step) *C07Case { return &C07Case{Src: src, Steps: steps, Origin: "corpus"} }
-	s := func(m string, args ...Arg) Step { return Step{M: m, Args: args} }
-	window := cOp("-", cOp("*", &CExp{K: "index", A: cArg(0), B: cInt(0)}, cInt(10)), &CExp{K: "index", A: cArg(0), B: cInt(1)})
+	l := func(xs ...int) *Tree { return c07TInts(xs...) }
+	mk := func(src *Tree, steps ...c07Step) *C07Case { return &C07Case{Src: src, Steps: steps, Origin: "corpus"} }
+	s := func(m string, args ...c07Arg) c07Step { return c07Step{M: m, Args: args} }
+	window := c07COp("-", c07COp("*", &c07CExp{K: "index", A: c07CArg(0), B: c07CInt(0)}, c07CInt(10)), &c07CExp{K: "index", A: c07CArg(0), B: c07CInt(1)})
 	return []*C07Case{
-		mk(tStr(""), s("cut", val(tInt(0)), val(tInt(1)))),
-		mk(tStr(""), s("cut", val(tInt(0)), val(tInt(0)))),
-		mk(tStr(""), s("cut", val(tInt(-3)), val(tInt(-1)))),
-		mk(tStr("a"), s("cut", val(tInt(1)), val(tInt(1)))),
-		mk(tStr("häb"), s("cut", val(tInt(1)), val(tInt(-1)))),
-		mk(l(1, 2), s("combineN", val(tInt(0)), fn(1, &CExp{K: "size", A: cArg(0)}))),
-		mk(l(), s("combineN", val(tInt(0)), fn(1, &CExp{K: "size", A: cArg(0)}))),
-		mk(l(), s("combineN", val(tInt(-1)), fn(1, &CExp{K: "size", A: cArg(0)}))),
-		mk(l(1, 2, 3), s("combineN", val(tInt(-1)), fn(1, cArg(0)))),
-		mk(l(1, 2, 3, 4, 5), s("combineN", val(tInt(3)), fn(1, cArg(0)))),
-		mk(l(1, 2, 3, 4, 5), s("combineN", val(tInt(2)), fn(1, window))),
-		mk(l(1, 2, 3, 4, 5), s("combineN", val(tInt(6)), fn(1, cArg(0)))),
-		mk(l(2, 1, 3), s("orderLess", fn(2, cStr("s")))),
-		mk(l(2, 1, 3), s("orderLess", fn(2, cThrow()))),
-		mk(l(2, 1, 3), s("orderLess", fn(2, cOp("<", cArg(0), cArg(1))))),
-		mk(l(2, 1, 3), s("order", fn(1, cThrow()))),
-		mk(tList(tStr("a")), s("order", fn(1, cThrow()))),
-		mk(tList(tInt(2), tStr("a"), tInt(3)), s("order", fn(1, cArg(0)))),
-		mk(l(1, 2, 3), Step{M: "iirApply", Args: []Arg{val(tMap([]string{"x"}, tInt(1)))}}),
-		mk(l(1, 2, 3), s("top", val(tInt(-1)))),
-		mk(l(1, 2, 3), s("skip", val(tInt(-1)))),
-		mk(l(1, 2, 3), s("top", val(tInt(0)))),
-		mk(l(1, 2, 3), s("skip", val(tInt(5)))),
-		mk(l(1, 2, 3), s("map", fn(1, cThrow())), s("top", val(tInt(0)))),
-		mk(l(1, 2, 3), s("map", fn(1, cIf(cOp("=", cArg(0), cInt(1)), cThrow(), cArg(0)))), s("skip", val(tInt(1)))),
+		mk(c07TStr(""), s("cut", c07Val(c07TInt(0)), c07Val(c07TInt(1)))),
+		mk(c07TStr(""), s("cut", c07Val(c07TInt(0)), c07Val(c07TInt(0)))),
+		mk(c07TStr(""), s("cut", c07Val(c07TInt(-3)), c07Val(c07TInt(-1)))),
+		mk(c07TStr("a"), s("cut", c07Val(c07TInt(1)), c07Val(c07TInt(1)))),
+		mk(c07TStr("häb"), s("cut", c07Val(c07TInt(1)), c07Val(c07TInt(-1)))),
+		mk(l(1, 2), s("combineN", c07Val(c07TInt(0)), c07Fn(1, &c07CExp{K: "size", A: c07CArg(0)}))),
+		mk(l(), s("combineN", c07Val(c07TInt(0)), c07Fn(1, &c07CExp{K: "size", A: c07CArg(0)}))),
+		mk(l(), s("combineN", c07Val(c07TInt(-1)), c07Fn(1, &c07CExp{K: "size", A: c07CArg(0)}))),
+		mk(l(1, 2, 3), s("combineN", c07Val(c07TInt(-1)), c07Fn(1, c07CArg(0)))),
+		mk(l(1, 2, 3, 4, 5), s("combineN", c07Val(c07TInt(3)), c07Fn(1, c07CArg(0)))),
+		mk(l(1, 2, 3, 4, 5), s("combineN", c07Val(c07TInt(2)), c07Fn(1, window))),
+		mk(l(1, 2, 3, 4, 5), s("combineN", c07Val(c07TInt(6)), c07Fn(1, c07CArg(0)))),
+		mk(l(2, 1, 3), s("orderLess", c07Fn(2, c07CStr("s")))),
+		mk(l(2, 1, 3), s("orderLess", c07Fn(2, c07CThrow()))),
+		mk(l(2, 1, 3), s("orderLess", c07Fn(2, c07COp("<", c07CArg(0), c07CArg(1))))),
+		mk(l(2, 1, 3), s("order", c07Fn(1, c07CThrow()))),
+		mk(c07TList(c07TStr("a")), s("order", c07Fn(1, c07CThrow()))),
+		mk(c07TList(c07TInt(2), c07TStr("a"), c07TInt(3)), s("order", c07Fn(1, c07CArg(0)))),
+		mk(l(1, 2, 3), c07Step{M: "iirApply", Args: []c07Arg{c07Val(c07TMap([]string{"x"}, c07TInt(1)))}}),
+		mk(l(1, 2, 3), s("top", c07Val(c07TInt(-1)))),
+		mk(l(1, 2, 3), s("skip", c07Val(c07TInt(-1)))),
+		mk(l(1, 2, 3), s("top", c07Val(c07TInt(0)))),
+		mk(l(1, 2, 3), s("skip", c07Val(c07TInt(5)))),
+		mk(l(1, 2, 3), s("map", c07Fn(1, c07CThrow())), s("top", c07Val(c07TInt(0)))),
+		mk(l(1, 2, 3), s("map", c07Fn(1, c07CIf(c07COp("=", c07CArg(0), c07CInt(1)), c07CThrow(), c07CArg(0)))), s("skip", c07Val(c07TInt(1)))),
 		mk(l(), s("sum")), mk(l(), s("mean")), mk(l(), s("min")), mk(l(), s("max")), mk(l(), s("first")), mk(l(), s("last")),
-		mk(l(), s("reduce", fn(2, cOp("+", cArg(0), cArg(1))))),
+		mk(l(), s("reduce", c07Fn(2, c07COp("+", c07CArg(0), c07CArg(1))))),
 		mk(l(1, 2, 3), s("single")), mk(l(7), s("single")), mk(l(), s("single")),
-		mk(l(), s("minMax", fn(1, cArg(0)))),
-		mk(l(3, 1, 2), s("minMax", fn(1, cArg(0)))),
-		mk(l(1, 2, 3), s("set", val(tInt(3)), val(tInt(9)))),
-		mk(l(1, 2, 3), s("set", val(tInt(-1)), val(tInt(9)))),
-		mk(tStr("häb"), s("indexOf", val(tStr("b")))),
-		mk(tStr("häb"), s("len")),
-		mk(tStr("ab"), s("replace", val(tStr("")), val(tStr("-")))),
-		mk(tStr(""), s("split", val(tStr("")))),
-		mk(tStr(""), s("split", val(tStr(",")))),
-		mk(tMap([]string{"a"}, tInt(1)), s("put", val(tStr("a")), val(tInt(2)))),
-		mk(tMap([]string{"a"}, tInt(1)), s("isAvail", val(tStr("zz")), val(tInt(5)))),
+		mk(l(), s("minMax", c07Fn(1, c07CArg(0)))),
+		mk(l(3, 1, 2), s("minMax", c07Fn(1, c07CArg(0)))),
+		mk(l(1, 2, 3), s("set", c07Val(c07TInt(3)), c07Val(c07TInt(9)))),
+		mk(l(1, 2, 3), s("set", c07Val(c07TInt(-1)), c07Val(c07TInt(9)))),
+		mk(c07TStr("häb"), s("indexOf", c07Val(c07TStr("b")))),
+		mk(c07TStr("häb"), s("len")),
+		mk(c07TStr("ab"), s("replace", c07Val(c07TStr("")), c07Val(c07TStr("-")))),
+		mk(c07TStr(""), s("split", c07Val(c07TStr("")))),
+		mk(c07TStr(""), s("split", c07Val(c07TStr(",")))),
+		mk(c07TMap([]string{"a"}, c07TInt(1)), s("put", c07Val(c07TStr("a")), c07Val(c07TInt(2)))),
+		mk(c07TMap([]string{"a"}, c07TInt(1)), s("isAvail", c07Val(c07TStr("zz")), c07Val(c07TInt(5)))),
 	}
 }
 
@@ -1500,7 +1504,7 @@ func c07Corpus() []*C07Case {
 
 func c07Run(c *C07Case, id int, sum *Summary, cw *CaseWriter) {
 	text, names, vals := c.Program()
-	o := runReal(text, names, vals)
+	o := c07RunReal(text, names, vals)
 	sum.Evaluations++
 	sum.Count("origin", strings.SplitN(c.Origin, ":", 2)[0])
 	if strings.HasPrefix(c.Origin, "misuse:") {
@@ -1539,22 +1543,22 @@ func c07Run(c *C07Case, id int, sum *Summary, cw *CaseWriter) {
 	if o.Kind != "ok" {
 		shown = o.Kind + ": " + o.Err
 	}
-	human := map[string]any{"program": text, "arguments": humanArgs(c), "observed": shown, "repro": c, "signature": sig}
+	human := map[string]any{"program": text, "arguments": c07HumanArgs(c), "observed": shown, "repro": c, "signature": sig}
 	sum.Cases[fmt.Sprint(id)] = human
 	// non-trivial: at least one built-in was really applied to a non-empty receiver or took the error path on purpose
-	sum.Nontriv(text + "|" + strings.Join(humanArgs(c), "|"))
+	sum.Nontriv(text + "|" + strings.Join(c07HumanArgs(c), "|"))
 	if id%97 == 0 {
 		sum.Sample(human)
 	}
 	cw.Add(c.Coq(id, obs))
-	if what, want := c.oracleVerdict(o); what != "" {
+	if what, want := c.c07OracleVerdict(o); what != "" {
 		sum.GoViolations = append(sum.GoViolations, GoViolation{CaseID: id, What: what, Sig: sig, Human: human, Expected: want, Observed: shown})
 	} else if o.Kind == "panic" {
 		sum.GoViolations = append(sum.GoViolations, GoViolation{CaseID: id, What: "a built-in panicked instead of returning an error", Sig: sig, Human: human, Expected: "an error value", Observed: shown})
 	}
 }
 
-func humanArgs(c *C07Case) []string {
+func c07HumanArgs(c *C07Case) []string {
 	var out []string
 	add := func(t *Tree) {
 		bs, _ := json.Marshal(t.Human())
@@ -1604,7 +1608,7 @@ func cmdC07(seed int64, tier, outDir string) {
 	}
 	for i := 0; i < n; i++ {
 		id++
-		c07Run(r.genCase(), id, sum, cw)
+		c07Run(r.c07GenCase(), id, sum, cw)
 	}
 	cw.Flush()
 	sum.CaseFiles = cw.files
